@@ -11,10 +11,10 @@ META = {
             "and normalize strips carriage returns first; D2 in on_did_change the position conversion re-reads the line map inside the "
             "per-change loop; D3 the splice is guarded (length and character boundary); D4 every stored text is also recorded, as the "
             "same Arc, in the pending Change; D5 text read from disk never replaces a file the Vfs already has, and watched-file reloads "
-            "skip opened documents. One obligation per site. D2 also: no iteration of the change loop skips the splice; D4 also: Change::apply sets every recorded text, in order. D6 every handler that modifies the store applies the pending change before it returns, and the roots are re-partitioned before the change is taken out; D8 a FileId is the key of its slab slot; D9 the last recorded text of a file wins (no keep-first entry API, no thinning of the list); D10 writer and readers of LineMap's table use one coordinate system.",
+            "skip opened documents. One obligation per site. D2 also: no iteration of the change loop skips the splice; D4 also: Change::apply sets every recorded text, in order. D6 every handler that modifies the store applies the pending change before it returns, and the roots are re-partitioned before the change is taken out; D8 a FileId is the key of its slab slot; D9 the last recorded text of a file wins (no keep-first entry API, no thinning of the list); D10 writer and readers of LineMap's table use one coordinate system. D14 = C14/U1, U3 (the width table and the two scans over it). D15 = C14/U10 (in crate glas only the line map and the reviewed makers produce a byte offset). D16 = C14/U8 (normalize changes line ends and nothing else; a lone CR is a line end; the disk reader drops a byte order mark).",
     "explanation": "Decides the lock-step clauses that keep the server's text and the table used to interpret the client's positions in "
                    "sync, and that the client's text is the one analysed. The position arithmetic itself (UTF-16 columns to byte "
-                   "offsets) is a computation on runtime text and is not decided here (see C14, not applicable).",
+                   "offsets) is a computation on runtime text and is not decided here (see C14).",
     "not_decided": "equality with the editor's text for all edit histories (offset arithmetic over runtime strings; D10 decides only that writer and readers of the line table use one coordinate system).",
     "trusted_base": ["rustc MIR", "String::retain removes exactly the characters for which the predicate is false"],
     "assumptions": [],
@@ -178,6 +178,10 @@ def run(F, res, tier):
     from rules import c14 as _c14
     _c14.width_table(F, res, rule="D14")
     _c14.scans(F, res, rule="D14")
+    # an edit is spliced in at the offset the line map computes for its (line, column): nobody else makes offsets (C14/U10)
+    _c14.offsets_have_one_maker(F, res, rule="D15")
+    # the stored text is the client's text up to line ends (C14/U8): nothing else is taken out of it
+    _c14.line_ends_and_bom(F, res, rule="D16")
 
 
 def store_changes_reach_the_analysis(F, res, rule="D6"):
